@@ -39,9 +39,14 @@ CHECKS = {
             "DESIGN.md 4/C18", "Ack timeouts and retry limits judged on virtual time.", "facade plumbing, reference codec/broker"),
 }
 
+CHECKS.update({
+    "C02": ("exploration", "runtime monitoring: differential fuzzing of the real encoder against an independent strict decoder (+ buffer-schedule differential), and strict decoding of every packet emitted in engine simulations",
+            "DESIGN.md 4/C02", "Generated packets of every client-emitted kind are encoded by the real encoder under several buffer-capacity schedules and judged by a reference decoder; the wire of engine simulations is judged the same way.", "reference decoder written from the OASIS texts"),
+    "C03": ("exploration", "runtime monitoring: differential fuzzing of the real decoder against an independent encoder, chunking differential, mutation/garbage robustness, early size rejection",
+            "DESIGN.md 4/C03", "Reference-encoded server packets (all reason codes, property orders, elisions), mutated and random streams are decoded under many partitions; results are compared across partitions and with the reference content.", "reference encoder written from the OASIS texts"),
+})
+
 PENDING = {
-    "C02": "check under construction in this session (codec differential fuzz)",
-    "C03": "check under construction in this session (decoder differential fuzz)",
     "C12": "check under construction in this session (client-impl simulator + real drivers)",
     "C13": "check under construction in this session (real drivers on scripted transports)",
     "C19": "check under construction in this session (back-off sequences)",
